@@ -37,8 +37,11 @@ IotaRec(n, acc) == IF Len(acc) > n THEN acc ELSE IotaRec(n, Append(acc, Len(acc)
 Iota(n) == IotaRec(n, << >>)                      \* <<0, 1, ..., n>>
 
 \* ------------------------------------------------------- equality relation
-\* ambig = sequence of <<symbol, equivalents>> in the order of MyersBuilder::ambig
-\* calls (a later call for the same symbol replaces the earlier one); the symbol
+\* Abstract state of a MyersBuilder: a map symbol -> set of equivalents, OVERWRITTEN by
+\* every ambig(symbol, equivalents) call, plus the set of text wildcards. It is recorded
+\* as the sequence of calls made on the builder object up to the build:
+\* ambig = sequence of <<symbol, equivalents>> in call order (the LAST call for a symbol
+\* counts, also when matchers were already built from the builder in between); the symbol
 \* always matches itself. wild = text symbols that match every pattern position.
 AmbigOf(ambig, s) ==
     LET I == {x \in 1..Len(ambig) : ambig[x][1] = s}
